@@ -36,10 +36,44 @@ fn span_hinit_probe() -> Option<String> {
     None
 }
 
+/// C06: the per-step interpolant handed to a SolOut callback reproduces the state at the right end of its step,
+/// also when the solver runs with dense_output(false) and the callback asked for it through XOut
+fn event_interpolant_right_end() -> Option<String> {
+    use ivp::methods::{RK23, RK4, DOPRI5, DOP853};
+    use ivp::solout::SolOut;
+    struct Probe { worst: f64, seen: usize }
+    impl SolOut for Probe {
+        fn solout(&mut self, _xold: f64, x: &mut f64, y: &mut [f64], interp: Option<&StepInterpolant<'_>>) -> ControlFlag {
+            if let Some(ip) = interp {
+                let mut yi = vec![0.0; y.len()];
+                ip.interpolate(*x, &mut yi);
+                for i in 0..y.len() { let e = (yi[i] - y[i]).abs(); if e > self.worst { self.worst = e; } }
+                self.seen += 1;
+            }
+            ControlFlag::XOut(*x + 1e-3)
+        }
+    }
+    let f = Lin::new();
+    let mut p = Probe { worst: 0.0, seen: 0 };
+    let _ = RK23::builder().dense_output(false).build().solve(&f, 0.0, &[1.0, 2.0], 1.0, 1e-6.into(), 1e-9.into(), Some(&mut p));
+    if p.seen > 0 && p.worst > 1e-9 { return Some(format!("RK23 dense_output(false)+XOut: interpolant at the step end differs from the state by {:e} ({} interpolants)", p.worst, p.seen)); }
+    let mut p = Probe { worst: 0.0, seen: 0 };
+    let _ = DOPRI5::builder().dense_output(false).build().solve(&f, 0.0, &[1.0, 2.0], 1.0, 1e-6.into(), 1e-9.into(), Some(&mut p));
+    if p.seen > 0 && p.worst > 1e-9 { return Some(format!("DOPRI5 dense_output(false)+XOut: {:e}", p.worst)); }
+    let mut p = Probe { worst: 0.0, seen: 0 };
+    let _ = DOP853::builder().dense_output(false).build().solve(&f, 0.0, &[1.0, 2.0], 1.0, 1e-6.into(), 1e-9.into(), Some(&mut p));
+    if p.seen > 0 && p.worst > 1e-9 { return Some(format!("DOP853 dense_output(false)+XOut: {:e}", p.worst)); }
+    let mut p = Probe { worst: 0.0, seen: 0 };
+    let _ = RK4::builder().dense_output(false).build().solve(&f, 0.0, &[1.0, 2.0], 1.0, 0.1, Some(&mut p));
+    if p.seen > 0 && p.worst > 1e-9 { return Some(format!("RK4 dense_output(false)+XOut: {:e}", p.worst)); }
+    None
+}
+
 fn main() {
     let which = std::env::args().nth(1).unwrap_or_default();
     let r = match which.as_str() {
         "span_hinit_probe" => span_hinit_probe(),
+        "event_interpolant_right_end" => event_interpolant_right_end(),
         _ => { println!("unknown scenario {}", which); std::process::exit(2); }
     };
     match r {
